@@ -33,14 +33,18 @@
 (*   pool  polygons enumerated by Gen_Poly (all simple lattice polygons    *)
 (*         with 0-2 holes), read back from the file IOEnv.POOL             *)
 (*   mpool MultiPolygons of two pool polygons side by side                 *)
+(*   gcpool collections of a pool polygon, a curve and points (mixed       *)
+(*         dimension, flat or nested)                                      *)
+(*   touch the square 0..6 with every triangular hole that touches the     *)
+(*         shell in one point (on an edge or at a corner)                  *)
 (* each with every lattice query point of a window one unit larger.        *)
 (***************************************************************************)
 EXTENDS Shapes, TLC, Json, IOUtils
 
 CONSTANTS Mode,          \* "closest": cases with query points; "interior": one case per geometry
           Fams,          \* set of source family names to enumerate
-          Stride, Offset,\* pool / mpool: every Stride-th (polygon, query point) combination
-          MStride        \* mpool: every MStride-th pool polygon gets a partner
+          Stride, Offset,\* pool / mpool / gcpool / touch: every Stride-th (geometry, query point) combination
+          MStride        \* mpool / gcpool: built on every MStride-th pool polygon
 
 -----------------------------------------------------------------------------
 \* the point of the closed segment [a, b] nearest to p, <<xn, yn, den>> in lowest terms
@@ -155,21 +159,39 @@ ASSUME CatSane == \A i \in DOMAIN Cat : Cat[i].valid =>
 -----------------------------------------------------------------------------
 Grid(k) == (0 .. k) \X (0 .. k)
 Win(lo, hi) == (lo .. hi) \X (lo .. hi)
-OnlyPool(S) == IF "pool" \in Fams \/ "mpool" \in Fams THEN S ELSE <<>>
+OnlyPool(S) == IF Fams \cap {"pool", "mpool", "gcpool"} # {} THEN S ELSE <<>>
 ShiftSeq(cs, d) == [i \in DOMAIN cs |-> <<cs[i][1] + d[1], cs[i][2] + d[2]>>]
 \* polygons written by Gen_Poly (op = "poly": ext, holes; valid by construction)
 Pool == OnlyPool(ndJsonDeserialize(IOEnv.POOL))
+NPool == Len(Pool)
+
+\* "touch": the square 0..6 with a triangular hole that has one corner ON the shell (an edge or a corner of it) and
+\* two corners strictly inside - valid, and the hole touches the shell in exactly that point (the shell is convex)
+Bd6 == {p \in Grid(6) : p[1] \in {0, 6} \/ p[2] \in {0, 6}}
+In6 == (1 .. 5) \X (1 .. 5)
+\* "gcpool": a pool polygon with a curve and a point set to the right of it (x >= 5), flat or nested
+CurveCat == << LS(<< <<5, 0>>, <<6, 2>>, <<5, 4>> >>), LS(<< <<5, 0>>, <<5, 4>> >>), Ln(<<5, 1>>, <<7, 4>>),
+               MLS(<< << <<5, 0>>, <<7, 0>> >>, << <<6, 2>>, <<6, 4>>, <<7, 3>> >> >>) >>
+PtCat == << Pt(<<8, 1>>), MPt(<< <<8, 0>>, <<8, 4>> >>) >>
+GcOf(i) == LET poly == Poly(Pool[i].ext, Pool[i].holes)
+               cur == CurveCat[(i % 4) + 1]
+               pts == PtCat[(i % 2) + 1]
+           IN IF i % 3 = 0 THEN GC(<< pts, GC(<< cur, GC(<< poly >>) >>) >>)
+              ELSE IF i % 3 = 1 THEN GC(<< poly, cur, pts >>) ELSE GC(<< cur, pts, poly >>)
 
 \* a source is <<family, i, j>>; the geometries it stands for and the query window
-Sources ==
-    (IF "cat" \in Fams THEN {<<"cat", i, 0>> : i \in DOMAIN Cat} ELSE {})
-    \cup (IF "line" \in Fams THEN {<<"line", a[1], a[2]>> : a \in Grid(3)} ELSE {})
-    \cup (IF "tri" \in Fams THEN {<<"tri", a[1] * 3 + a[2], b[1] * 3 + b[2]>> : a \in Grid(2), b \in Grid(2)} ELSE {})
-    \cup (IF "tridegen" \in Fams THEN {<<"tridegen", a[1] * 3 + a[2], b[1] * 3 + b[2]>> : a \in Grid(2), b \in Grid(2)} ELSE {})
-    \cup (IF "rect" \in Fams THEN {<<"rect", a[1], a[2]>> : a \in Grid(3)} ELSE {})
-    \cup (IF "ls3" \in Fams THEN {<<"ls3", a[1] * 3 + a[2], b[1] * 3 + b[2]>> : a \in Grid(2), b \in Grid(2)} ELSE {})
-    \cup (IF "pool" \in Fams THEN {<<"pool", i, 0>> : i \in DOMAIN Pool} ELSE {})
-    \cup (IF "mpool" \in Fams THEN {<<"mpool", i, ((7 * i + 3) % Len(Pool)) + 1>> : i \in {i \in DOMAIN Pool : i % MStride = Offset % MStride}} ELSE {})
+\* (kept per family: TLC enumerates a big union of sets very slowly)
+Src(f) ==
+    CASE f = "cat"  -> {<<"cat", i, 0>> : i \in DOMAIN Cat}
+      [] f = "line" -> {<<"line", a[1], a[2]>> : a \in Grid(3)}
+      [] f = "tri"  -> {<<"tri", a[1] * 3 + a[2], b[1] * 3 + b[2]>> : a \in Grid(2), b \in Grid(2)}
+      [] f = "tridegen" -> {<<"tridegen", a[1] * 3 + a[2], b[1] * 3 + b[2]>> : a \in Grid(2), b \in Grid(2)}
+      [] f = "rect" -> {<<"rect", a[1], a[2]>> : a \in Grid(3)}
+      [] f = "ls3"  -> {<<"ls3", a[1] * 3 + a[2], b[1] * 3 + b[2]>> : a \in Grid(2), b \in Grid(2)}
+      [] f = "pool" -> {<<"pool", i, 0>> : i \in 1 .. NPool}
+      [] f = "mpool" -> {<<"mpool", i, ((7 * i + 3) % NPool) + 1>> : i \in {i \in 1 .. NPool : i % MStride = Offset % MStride}}
+      [] f = "gcpool" -> {<<"gcpool", i, 0>> : i \in {i \in 1 .. NPool : i % MStride = Offset % MStride}}
+      [] f = "touch" -> {<<"touch", a[1], a[2]>> : a \in Bd6}
 P3(k) == <<k \div 3, k % 3>>
 FlatTri(g) == g.t = "Triangle" /\ Cross(g.a, g.b, g.c) = 0
 Geoms(s) ==
@@ -188,6 +210,15 @@ Geoms(s) ==
                                             PR(ShiftSeq(Pool[s[3]].ext, <<5, 0>>),
                                                [h \in DOMAIN Pool[s[3]].holes |-> ShiftSeq(Pool[s[3]].holes[h], <<5, 0>>)]) >>),
                              valid |-> TRUE]}
+      [] s[1] = "gcpool" -> {[g |-> GcOf(s[2]), valid |-> TRUE]}
+      [] s[1] = "touch" -> LET a == <<s[2], s[3]>> IN
+                           {[g |-> Poly(Sq(0, 0, 6), << <<a, x[1], x[2], a>> >>), valid |-> TRUE]
+                               : x \in {x \in In6 \X In6 : Cross(a, x[1], x[2]) > 0}}
+\* strided families keep every Stride-th (geometry, query point) combination
+StrideKey(s, x) == IF s[1] = "touch" THEN LET h == x.g.holes[1] IN s[2] + s[3] + h[2][1] + 3 * h[2][2] + 5 * h[3][1] + 7 * h[3][2]
+                   ELSE s[2]
+Strided(s) == s[1] \in {"pool", "mpool", "gcpool", "touch"}
+Keep(s, x, p) == ~Strided(s) \/ (StrideKey(s, x) + 7 * (p[1] + 1) + (p[2] + 1)) % Stride = Offset % Stride
 Window(s) ==
     CASE s[1] = "cat"  -> Win(-1, 9)
       [] s[1] = "line" -> Win(-1, 4)
@@ -195,17 +226,19 @@ Window(s) ==
       [] s[1] = "tridegen" -> Win(-1, 3)
       [] s[1] = "rect" -> Win(-1, 4)
       [] s[1] = "ls3"  -> Win(-1, 3)
-      [] s[1] = "pool" -> {p \in Win(-1, 5) : (s[2] + 7 * (p[1] + 1) + (p[2] + 1)) % Stride = Offset % Stride}
-      [] s[1] = "mpool" -> {p \in (-1 .. 10) \X (-1 .. 5) : (s[2] + 7 * (p[1] + 1) + (p[2] + 1)) % Stride = Offset % Stride}
+      [] s[1] = "pool" -> Win(-1, 5)
+      [] s[1] = "mpool" -> (-1 .. 10) \X (-1 .. 5)
+      [] s[1] = "gcpool" -> (-1 .. 9) \X (-1 .. 5)
+      [] s[1] = "touch" -> Win(-1, 7)
 
 VARIABLES src, e, q, done
 vars == <<src, e, q, done>>
 NoGeom == [g |-> Pt(<<0, 0>>), valid |-> FALSE]
-Init == src \in Sources /\ e = NoGeom /\ q = <<0, 0>> /\ done = FALSE
+Init == (\E f \in Fams : src \in Src(f)) /\ e = NoGeom /\ q = <<0, 0>> /\ done = FALSE
 Next == /\ ~done /\ done' = TRUE /\ src' = src
         /\ e' \in Geoms(src)
         /\ IF Mode = "closest"
-           THEN q' \in Window(src) /\ PrintT(<<"CASE", ToJson(ClosestCase(e', q'))>>)
+           THEN q' \in {p \in Window(src) : Keep(src, e', p)} /\ PrintT(<<"CASE", ToJson(ClosestCase(e', q'))>>)
            ELSE q' = q /\ PrintT(<<"CASE", ToJson(InteriorCase(e'))>>)
 Spec == Init /\ [][Next]_vars
 
